@@ -74,7 +74,7 @@ type wireCase struct {
 var (
 	vUUID  = ovsdb.UUID{GoUUID: "11111111-2222-3333-4444-555555555555"}
 	vUUID2 = ovsdb.UUID{GoUUID: "11111111-2222-3333-4444-666666666666"}
-	vNamed = ovsdb.UUID{GoUUID: "row_name"}
+	vNamed = ovsdb.UUID{GoUUID: "Row_Name9"} // names are case-sensitive
 )
 
 func wireAtoms() []interface{} {
@@ -146,6 +146,8 @@ func wireCases(level int) []wireCase {
 	// UUIDs, sets, maps
 	add("uuid", vUUID, true)
 	add("uuid.named", vNamed, true)
+	add("uuid.named", ovsdb.UUID{GoUUID: "row_name"}, true)
+	add("uuid.upper-case-hex", ovsdb.UUID{GoUUID: "AAAAAAAA-2222-3333-4444-55555555555F"}, true)
 	for _, s := range wireSets() {
 		add("set", s, true)
 	}
